@@ -51,28 +51,38 @@ theorem isa_frontOK (env : Env) (be k m ct len : Nat) (hk : 1 ≤ k) (hkm : k + 
   · rcases hbe with rfl | rfl <;> simp [isaInst]
   · rcases hbe with rfl | rfl <;> simp [isaInst, beVersion]
 
+/-- the same for every input length the size guard of `encode` lets through. -/
+theorem isa_frontOK_guard (env : Env) (be k m ct len : Nat) (hk : 1 ≤ k) (hkm : k + m ≤ 32) (hbe : be = 4 ∨ be = 7)
+    (hct : ct < 256) (hlv : env.libver < 2 ^ 32) (hl0 : env.libver ≠ 0)
+    (hg : encodeTooLarge (isaInst be k m ct) len = false) :
+    FrontOK env (isaInst be k m ct) len := by
+  refine frontOK_of_created_guard env (isaInst be k m ct) len hk hkm (by simp [isaInst]) (by simp [isaInst]) hct
+    ?_ ?_ hlv hl0 hg
+  · rcases hbe with rfl | rfl <;> simp [isaInst]
+  · rcases hbe with rfl | rfl <;> simp [isaInst, beVersion]
+
 theorem roundtrip (hP : IsaPrimsOK P k m φ) (env : Env) (be ct : Nat) (hk : 1 ≤ k) (hkm : k + m ≤ 32)
     (hbe : be = 4 ∨ be = 7) (hct : ct < 256) (hlv : env.libver < 2 ^ 32) (hl0 : env.libver ≠ 0)
-    (data : Bytes) (hlen : data.length < 2 ^ 31 - 2 ^ 12) (enc frags : List Bytes)
+    (data : Bytes) (enc frags : List Bytes)
     (henc : encode env (isaBackend P k m (beVersion be)) (isaInst be k m ct) data = .ok enc)
     (hsub : ∀ f ∈ frags, f ∈ enc) (htol : IsaTol P k m (missingOfStripe enc frags))
     (hn : k ≤ frags.length) (force : Bool) :
     decode env (isaBackend P k m (beVersion be)) (isaInst be k m ct) frags
       (80 + blockSize (isaInst be k m ct) data.length) force = .ok data :=
   LecProps.C01.roundtrip env _ (isaInst be k m ct) data enc frags (isa_encodeOK hP _) (isa_decodeOK hP _)
-    trivial (isa_frontOK env be k m ct data.length hk hkm hbe hct hlv hl0 hlen)
+    trivial (isa_frontOK_guard env be k m ct data.length hk hkm hbe hct hlv hl0 (encodeTooLarge_false_of_ok henc))
     (by simp [isaBackend, isaInst]) henc hsub htol htol.1 hn force
 
 theorem fidelity (hP : IsaPrimsOK P k m φ) (env : Env) (be ct : Nat) (hk : 1 ≤ k) (hkm : k + m ≤ 32)
     (hbe : be = 4 ∨ be = 7) (hct : ct < 256) (hlv : env.libver < 2 ^ 32) (hl0 : env.libver ≠ 0)
-    (data : Bytes) (hlen : data.length < 2 ^ 31 - 2 ^ 12) (enc frags : List Bytes)
+    (data : Bytes) (enc frags : List Bytes)
     (henc : encode env (isaBackend P k m (beVersion be)) (isaInst be k m ct) data = .ok enc)
     (hsub : ∀ f ∈ frags, f ∈ enc) (htol : IsaTol P k m (missingOfStripe enc frags))
     (dest : Nat) (hd : dest < k + m) :
     reconstruct env (isaBackend P k m (beVersion be)) (isaInst be k m ct) frags
       (80 + blockSize (isaInst be k m ct) data.length) dest = .ok (enc.getD dest []) :=
   LecProps.C03.fidelity env _ (isaInst be k m ct) data enc frags (isa_encodeOK hP _) (isa_decodeOK hP _)
-    trivial (isa_frontOK env be k m ct data.length hk hkm hbe hct hlv hl0 hlen) henc hsub htol htol.1 dest hd
+    trivial (isa_frontOK_guard env be k m ct data.length hk hkm hbe hct hlv hl0 (encodeTooLarge_false_of_ok henc)) henc hsub htol htol.1 dest hd
 
 /-- every error the adapter's decode / reconstruct can return is the C code's -1. -/
 theorem adapter_errors_negative (P : IsaPrims) (k m ver : Nat) (d p : List Bytes) (ms : List Nat) (b : Nat) (e : Int) :
@@ -90,7 +100,7 @@ theorem adapter_errors_negative (P : IsaPrims) (k m ver : Nat) (d p : List Bytes
 
 theorem no_silent_corruption (hP : IsaPrimsOK P k m φ) (env : Env) (be ct : Nat) (hk : 1 ≤ k) (hkm : k + m ≤ 32)
     (hbe : be = 4 ∨ be = 7) (hct : ct < 256) (hlv : env.libver < 2 ^ 32) (hl0 : env.libver ≠ 0)
-    (data : Bytes) (hlen : data.length < 2 ^ 31 - 2 ^ 12) (enc frags : List Bytes)
+    (data : Bytes) (enc frags : List Bytes)
     (henc : encode env (isaBackend P k m (beVersion be)) (isaInst be k m ct) data = .ok enc)
     (hsub : ∀ f ∈ frags, f ∈ enc) (force : Bool) (dest : Int) :
     (decode env (isaBackend P k m (beVersion be)) (isaInst be k m ct) frags
@@ -103,10 +113,10 @@ theorem no_silent_corruption (hP : IsaPrimsOK P k m φ) (env : Env) (be ct : Nat
         (80 + blockSize (isaInst be k m ct) data.length) dest = .error (.rc e) ∧ e < 0) :=
   ⟨LecProps.C02.decode_exact_or_error env _ (isaInst be k m ct) data enc frags (isa_encodeOK hP _)
       (isa_decodeSound hP _) (fun d p ms b e h => (adapter_errors_negative P k m _ d p ms b e).1 h) trivial
-      (isa_frontOK env be k m ct data.length hk hkm hbe hct hlv hl0 hlen) henc hsub force,
+      (isa_frontOK_guard env be k m ct data.length hk hkm hbe hct hlv hl0 (encodeTooLarge_false_of_ok henc)) henc hsub force,
    LecProps.C02.reconstruct_exact_or_error env _ (isaInst be k m ct) data enc frags (isa_encodeOK hP _)
       (isa_decodeSound hP _) (fun d p ms dst b e h => (adapter_errors_negative P k m _ d p ms b e).2 dst h) trivial
-      (isa_frontOK env be k m ct data.length hk hkm hbe hct hlv hl0 hlen) henc hsub dest⟩
+      (isa_frontOK_guard env be k m ct data.length hk hkm hbe hct hlv hl0 (encodeTooLarge_false_of_ok henc)) henc hsub dest⟩
 
 theorem inversion_failure (P : IsaPrims) (k m ver : Nat) (d p : List Bytes) (missing : List Nat) (dest bs : Nat)
     (h : P.invert k (IsaL.availRows P k m missing) = none) :
